@@ -750,6 +750,11 @@ func (g *c05Gen) poolBook(tr *Trace) ([]*c05Order, sdkmath.LegacyDec) {
 			}
 			pool = rp
 			tr.Count("pool:ranged")
+			// the orders this ranged pool contributes to the book are checked against the model too
+			if r.Chance(scale(25, 100)) {
+				prx, pry := rp.Balances()
+				c05RangedPoolLine(tr, prx, pry, minP, maxP, lowest, highest, g.prec)
+			}
 		}
 		orderer := liqtypes.NewPoolOrderer(pool, uint64(pi+1), nil, "base", "quote")
 		var pos []amm.Order
@@ -881,6 +886,7 @@ func TestC05(t *testing.T) {
 
 	c05TickLines(tr, rng, scale(3000, 60000))
 	c05PoolLines(tr, rng, scale(1500, 30000))
+	c05RangedLines(tr, rng, scale(400, 20000))
 
 	g := &c05Gen{rng: rng}
 	books := scale(40000, 600000)
